@@ -75,6 +75,24 @@ CHECKS = {
               "bytes), C07_footprint_is_layout, for every integer type, every well-formed ABI, every address and memory. Tied to the code by stores/loads of 14 types at all alignments and at the "
               "region end with window + whole-region hash comparison, five load paths, whole-array (multi-dimensional) stores. Two defects found here were repaired (ec0ed44, cb0dd04)."),
         note=NOTE + "float/double/pointer/struct footprints are checked under C08/C04; bool loads of non-canonical bytes are not judged."),
+    "C13": dict(
+        engine="hist", design_ref="DESIGN.md §6 C13",
+        technique="Lean 4 ownership invariant proved by induction over all operation histories (concrete keys/slot-table/owner model) + lock-step histories against a reference set model",
+        text=("Proof: Inv (registered keys = functions in the backend entry-point table = functions held by owner objects; unique slots, unique owners) with release_inv, registerNew_inv, "
+              "C13_move_transfers, C13_register, step_inv and C13_inv (the invariant holds after every history of create/destroy/register/unregister/move/lookup, any length, any table size, "
+              "under the explicit side condition that no owner is released while its sandbox is not created); C13_no_dup, C13_full_refused, C13_release_reenables; C13_outlive_witness proves the "
+              "unconditional statement false (known finding F6b). Tied to the code by exhaustive depth-2/3 + sampled deeper histories on a 2-slot backend with a state probe after every step and "
+              "forked can-register probes, random histories on 8- and 64-slot backends, table exhaustion. Two defects found and repaired (4c0791f, 6d44084)."),
+        note=NOTE + "Aborts are exceptions in the harness; histories continue after guard aborts (state unchanged) and stop after a refusal by a full table. F6b is a listed known finding."),
+    "C14": dict(
+        engine="hist", design_ref="DESIGN.md §6 C14",
+        technique="Lean 4 state-machine theorems + registry invariant by induction over all histories + lock-step histories against a 4-state reference machine",
+        text=("Proof: C14_create_only_from_not_created, C14_create_from_not_created, C14_destroy_only_from_created, C14_destroy_effect, C14_registry_exact (for every history the live-sandbox "
+              "list contains exactly the CREATED objects, each once), C14_find (found from its addresses iff created), C14_outside_window, C14_fresh_symbols (no cached symbol survives "
+              "re-creation), status_enum_matches (source enum regenerated each run); C14_fresh_witness proves full freshness false (callback keys survive: known finding F6b). Tied to the code by "
+              "all op sequences to depth 2/3 + samples on two objects and random histories on three objects (vsbx, noop) with lookups for every region after each history. "
+              "Two defects found and repaired (891f43c stale symbol cache, d07e384 shared lookup cache)."),
+        note=NOTE + "A failed create leaves the object INITIALIZING for ever (allowed by the statement)."),
 }
 
 TODO_REASON = "check not built yet in this round (design in DESIGN.md §6); will be claimed when its theorems and correspondence check exist"
